@@ -43,6 +43,32 @@ def value_text(v) -> str:
     return None
 
 
+def norm_got(x):
+    if hasattr(x, "rebuild"):
+        return " ".join(x.rebuild().split())
+    if isinstance(x, dict):
+        return "{ " + " ".join(f"{k} = {norm_got(v)};" for k, v in x.items()) + " }" if x else "{ }"
+    if isinstance(x, (list, tuple)):
+        return "[ " + " ".join(str(norm_got(i)) for i in x) + " ]" if x else "[ ]"
+    return value_text(x)
+
+
+def norm_want(v):
+    if isinstance(v, str) and v.startswith("EXPR:"):
+        return None if v[5:].lstrip().startswith("{") else " ".join(v[5:].split())
+    return norm_got(v)
+
+
+TARGETED = [
+    [("set", ["a"], "p", 5)], [("set", ["a"], "p", "s"), ("get", ["a"], "p")], [("del", ["a"], "p"), ("set", ["a"], "p", 5)],
+    [("set", ["b", "a"], "p", 5)], [("set", ["a"], "z", 5), ("set", ["a"], "z", 6)], [("set", ["version"], "q", 5)],
+    [("set", ["version", "s"], "t", 5)], [("set", ["b"], "k", 5)], [("set", [], "a", 5), ("get", [], "a")],
+    [("scopeset", "x", 5), ("scopeget", "x")], [("scopeget", "y")], [("scopeget", "v")], [("scopeget", "a")],
+    [("scopeget", "lib")], [("scopedel", "x"), ("scopeget", "x")], [("scopedel", "y"), ("scopeget", "y")],
+    [("scopeset", "y", 5), ("scopedel", "y"), ("scopeget", "y")],
+]
+
+
 def gen_history(ctx, text):
     rng = ctx.rng
     ops = []
@@ -93,6 +119,10 @@ def run_history(ctx, text, ops, info, reqs_out):
         before = src.rebuild()
         tree_before = ep.safe_tree(before)
         res, exc_s, got = "ok", "", None
+        try:
+            scope_names = [getattr(i, "name", None) for i in tgt.scope]
+        except Exception:  # noqa: BLE001
+            scope_names = None
         try:
             if op[0] in ("get", "set", "del"):
                 m = src
@@ -146,8 +176,25 @@ def run_history(ctx, text, ops, info, reqs_out):
             snap = dm.canon(dm.snapshot(src, ids))
         except Exception as exc:  # noqa: BLE001
             snap = ["snapshot-raised", type(exc).__name__]
+        # the dictionary laws, asked of the implementation directly: a lookup right after a successful
+        # write (after the snapshot, so that the correspondence sees the state the operation left)
+        follow = None
+        if res == "ok" and op[0] in ("set", "del", "scopeset", "scopedel"):
+            try:
+                if op[0] in ("set", "del"):
+                    m2 = src
+                    for kk in op[1]:
+                        m2 = m2[kk]
+                    follow = ("ok", norm_got(m2[op[2]]))
+                else:
+                    follow = ("ok", norm_got(tgt.scope[op[1]]))
+            except KeyError:
+                follow = ("key", None)
+            except Exception as exc:  # noqa: BLE001
+                follow = (type(exc).__name__, None)
         recs.append({"op": op, "res": res, "exc": exc_s, "before": before, "after": after, "snap": snap,
-                     "tree_before": tree_before, "got": got, "modelled": not model_stopped})
+                     "tree_before": tree_before, "got": got, "modelled": not model_stopped, "follow": follow,
+                     "scope_names": scope_names})
     reqs_out.append((req, recs, text, ops))
     # --------- oracle on the implementation (a history is judged up to its first failure: after
     # one, text and mapping have diverged and everything later is a consequence)
@@ -162,6 +209,23 @@ def run_history(ctx, text, ops, info, reqs_out):
         if r["after"].startswith("<rebuild raised"):
             ctx.fail({"clause": "rebuild-raises", "op": op[0]}, inp, f"after {op!r} rebuild() raised: {r['after']}")
             continue
+        fo = r.get("follow")
+        if fo is not None and not (op[0] in ("set", "del") and any("." in kk and not kk.startswith('"') for kk in op[1] + [op[2]])):
+            if op[0] in ("set", "scopeset"):
+                v = op[3] if op[0] == "set" else op[2]
+                if fo[0] != "ok" or (norm_want(v) is not None and fo[1] != norm_want(v)):
+                    ctx.fail({"clause": "get-after-set", "op": op[0]}, {**inp, "after": r["after"]},
+                             f"after {op!r} the lookup of the same key gives {fo!r}, expected {norm_want(v)!r}")
+                    continue
+            elif fo[0] != "key":
+                ctx.fail({"clause": "get-after-del", "op": op[0]}, {**inp, "after": r["after"]},
+                         f"after {op!r} the lookup of the same key gives {fo!r}, expected KeyError")
+                continue
+        if op[0] == "scopeget" and r.get("scope_names") is not None:
+            if r["res"] == "ok" and op[1] not in r["scope_names"]:
+                ctx.fail({"clause": "scopeget-invents", "op": op[0]}, inp,
+                         f"scope lookup {op[1]!r} succeeded although the scope mapping lists {r['scope_names']!r}")
+                continue
         if op[0] == "topscopeset":
             want = {k: (str(v) if isinstance(v, int) else '"' + v + '"') for k, v in op[2].items()}
             if r["res"] != "ok" or ta != want:
@@ -286,8 +350,16 @@ def run(ctx: fw.Ctx):
     ]
     ctx.assumptions = ["values are compared as whitespace-normalised text"]
     reqs = []
-    for text, info in stream(ctx):
-        ops = gen_history(ctx, text)
+    texts = stream(ctx)
+    seen_t = set()
+    jobs = []
+    for text, info in texts:
+        jobs.append((text, info, gen_history(ctx, text)))
+        if text not in seen_t and len(seen_t) < (400 if ctx.quick else 4000):
+            seen_t.add(text)
+            for ops in TARGETED:
+                jobs.append((text, info, list(ops)))
+    for text, info, ops in jobs:
         recs = run_history(ctx, text, ops, info, reqs)
         if recs is None:
             continue
